@@ -923,8 +923,9 @@ type BinaryOpNode struct {
 
 func (n *BinaryOpNode) String() string {
 	var prec = binaryPrecedence[n.Name]
-	// binary operators associate to the left.
-	return operandString(n.Arg1, prec, false) + " " + n.Name + " " + operandString(n.Arg2, prec, true)
+	// binary operators associate to the left, except ?: which groups to the
+	// right (its operands are parenthesized on both sides).
+	return operandString(n.Arg1, prec, n.Name == "?:") + " " + n.Name + " " + operandString(n.Arg2, prec, true)
 }
 
 // Operator precedence, used to print the parentheses an expression needs to
@@ -1028,7 +1029,9 @@ func (n *TernNode) String() string {
 	} else {
 		elseStr = operandString(n.Arg3, 0, false)
 	}
-	return operandString(n.Arg1, 0, false) + " ? " + operandString(n.Arg2, 0, false) + " : " + elseStr
+	// (a condition that is itself a ?: or a conditional needs parentheses: the
+	// three operators share one level and group to the right)
+	return operandString(n.Arg1, 0, true) + " ? " + operandString(n.Arg2, 0, false) + " : " + elseStr
 }
 
 func (n *TernNode) Children() []Node {
